@@ -202,7 +202,7 @@ Definition memkind_of (d b i : bool) : memkind :=
 Definition name_opt (n : name) : option name := match n with [] => None | _ => Some n end.
 
 (* read_operand: Some (Some op) = operand, Some None = TAG_EOI *)
-Definition r_operand (st : rstate) (ts : list stok) : option (option operand * list stok) :=
+Definition r_operand (decl : name -> bool) (ts : list stok) : option (option operand * list stok) :=
   match ts with
   | SU u :: r => Some (Some (OUint u), r)
   | SI i :: r => Some (Some (OInt i), r)
@@ -210,7 +210,7 @@ Definition r_operand (st : rstate) (ts : list stok) : option (option operand * l
   | SD b :: r => Some (Some (ODouble b), r)
   | SLD b :: r => Some (Some (OLdouble b), r)
   | SReg s :: r => Some (Some (OReg s), r)
-  | SName s :: r => if declared st s then Some (Some (ORef s), r) else None
+  | SName s :: r => if decl s then Some (Some (ORef s), r) else None
   | SStr s :: r => Some (Some (OStr s), r)
   | SLab n :: r => Some (Some (OLabel n), r)
   | SMem k al :: SType t :: r =>
@@ -241,24 +241,24 @@ Definition r_operand (st : rstate) (ts : list stok) : option (option operand * l
   | _ => None
   end.
 
-Fixpoint r_ops_fixed (st : rstate) (n : nat) (ts : list stok) : option (list operand * list stok) :=
+Fixpoint r_ops_fixed (decl : name -> bool) (n : nat) (ts : list stok) : option (list operand * list stok) :=
   match n with
   | O => Some ([], ts)
   | S k =>
-      match r_operand st ts with
+      match r_operand decl ts with
       | Some (Some o, r) =>
-          match r_ops_fixed st k r with Some (os, r') => Some (o :: os, r') | None => None end
+          match r_ops_fixed decl k r with Some (os, r') => Some (o :: os, r') | None => None end
       | _ => None
       end
   end.
 
-Fixpoint r_ops_var (st : rstate) (fuel : nat) (ts : list stok) : option (list operand * list stok) :=
+Fixpoint r_ops_var (decl : name -> bool) (fuel : nat) (ts : list stok) : option (list operand * list stok) :=
   match fuel with
   | O => None
   | S f =>
-      match r_operand st ts with
+      match r_operand decl ts with
       | Some (Some o, r) =>
-          match r_ops_var st f r with Some (os, r') => Some (o :: os, r') | None => None end
+          match r_ops_var decl f r with Some (os, r') => Some (o :: os, r') | None => None end
       | Some (None, r) => Some ([], r)
       | None => None
       end
@@ -516,7 +516,7 @@ Definition r_step (fuel : nat) (st : rstate) (ts : list stok) : step_res :=
         match opcode_of_num (Z.to_N code), rs_func st with
         | Some c, Some fs =>
             if negb (readable_code c) then Fail "wrong insn code" else
-            match (if var_arity c then r_ops_var st fuel r else r_ops_fixed st (insn_nops c) r) with
+            match (if var_arity c then r_ops_var (declared st) fuel r else r_ops_fixed (declared st) (insn_nops c) r) with
             | Some (ops, r1) =>
                 Next (mkRstate (rs_mods st) (rs_mod st)
                         (Some (mkFstate (fs_name fs) (fs_vararg fs) (fs_res fs) (fs_args fs)
